@@ -199,6 +199,22 @@ pub fn check(input: &str) -> (Vec<Violation>, bool, u64) {
                 Ok(t) => t,
                 Err(_) => fail!("aisle write produced invalid UTF-8", ""),
             };
+            // environment deviations of the sink: short writes (at most k bytes accepted per call) must still
+            // deliver the whole text; a sink that runs full must give an error, never a silently cut text
+            for k in [1usize, 3] {
+                let mut t = Trickle { buf: Vec::new(), k };
+                match write(&conf, &mut t) {
+                    Ok(()) if t.buf == text.as_bytes() => {}
+                    Ok(()) => fail!("aisle write loses text on a sink with short writes", "sink accepting {k} byte(s) per call received {:?}, the complete text is {text:?}", String::from_utf8_lossy(&t.buf)),
+                    Err(e) => fail!("aisle write failed on a sink with short writes", "{e}"),
+                }
+            }
+            if !text.is_empty() {
+                let mut small = vec![0u8; text.len() - 1];
+                if write(&conf, &mut small[..]).is_ok() {
+                    fail!("aisle write reports success on a full sink", "a {}-byte slice took a {}-byte text without an error", text.len() - 1, text.len());
+                }
+            }
             match guarded(|| parse(&text).map(|c2| c2 == conf)) {
                 Ok(Ok(true)) => {}
                 Ok(Ok(false)) => fail!("aisle round trip differs", "parsed {:?}; written as {text:?}; parsed again {:?}", conf.categories, parse(&text).map(|c| c.categories)),
@@ -265,9 +281,25 @@ pub fn check(input: &str) -> (Vec<Violation>, bool, u64) {
     }
 }
 
+/// a sink that accepts at most `k` bytes per `write` call
+struct Trickle {
+    buf: Vec<u8>,
+    k: usize,
+}
+impl std::io::Write for Trickle {
+    fn write(&mut self, b: &[u8]) -> std::io::Result<usize> {
+        let n = b.len().min(self.k);
+        self.buf.extend_from_slice(&b[..n]);
+        Ok(n)
+    }
+    fn flush(&mut self) -> std::io::Result<()> {
+        Ok(())
+    }
+}
+
 pub fn run(tier: Tier) {
     let c = ctx();
-    c.set_rule("every canonical symbol sequence up to the stated length over the aisle alphabet, and over a second alphabet of names differing only in case; oracles: no panic; Err => spans in bounds on char boundaries, duplicate spans slice to the reported name, write_rich_error renders; Ok => names are trimmed sub-slices of the input in file order, no duplicates, every non-blank non-separator character outside comments is in a name, parse(write(conf)) == conf, ingredients_info maps every name to its category and first name, and so does the bindings' configuration object built from the same text (category_for, categories); on inputs with ASCII whitespace the result equals an independent reference parser; non-trivial = an error or at least one category; distinct = distinct hash of the result");
+    c.set_rule("every canonical symbol sequence up to the stated length over the aisle alphabet, and over a second alphabet of names differing only in case; oracles: no panic; Err => spans in bounds on char boundaries, duplicate spans slice to the reported name, write_rich_error renders; Ok => names are trimmed sub-slices of the input in file order, no duplicates, every non-blank non-separator character outside comments is in a name, parse(write(conf)) == conf, also through sinks that take short writes (1 or 3 bytes per call) and a sink one byte too small (must be an error), ingredients_info maps every name to its category and first name, and so does the bindings' configuration object built from the same text (category_for, categories); on inputs with ASCII whitespace the result equals an independent reference parser; non-trivial = an error or at least one category; distinct = distinct hash of the result");
     let a = a_aisle();
     let (canon, distinct) = a.self_check(4);
     if canon != distinct {
